@@ -301,7 +301,12 @@ func TestC16(t *testing.T) {
 		}
 		// via the public constructor with names
 		zones := []string{"a", "b", "c", "d", "e", "f", "g", "h"}
-		g2, err := ring.NewSpreadMinimizingTokenGenerator(fmt.Sprintf("ingester-zone-%s-%d", zones[e.z], e.k), zones[e.z], zones, false)
+		// the configured zone list in any order: the zone index is the position in the *sorted* list
+		cfgZones := append([]string(nil), zones...)
+		if rng.IntN(2) == 0 {
+			rng.Shuffle(len(cfgZones), func(i, j int) { cfgZones[i], cfgZones[j] = cfgZones[j], cfgZones[i] })
+		}
+		g2, err := ring.NewSpreadMinimizingTokenGenerator(fmt.Sprintf("ingester-zone-%s-%d", zones[e.z], e.k), zones[e.z], cfgZones, false)
 		if err != nil {
 			run.Violation(c, "spread/constructor-failed", "public constructor failed", map[string]any{"err": err.Error()})
 			return
